@@ -851,12 +851,13 @@ func main() {
 			truncated = append(truncated, p.sh.name+"/"+p.name)
 		}
 	}
-	budget := e.Pick(800, 20000)
+	budget := e.Pick(500, 20000)
 	for _, p := range three {
 		x.sampled(p, budget)
 	}
 	pool := poolPhase(e, 3)
 	errs := errPhase(e)
+	crypt := cryptPhase(e, e.Pick(25, 400))
 	e.Finish("every schedule of every listed program with <= 2 goroutines on the real Decode/DecodeExclusive/StoreOrLoadPair (stateless DFS over the verif scheduling points); programs with 3 goroutines: a fixed budget of random schedules (sampling, not exhaustive); oracle: pointer identity per (object,type), one exclusive decoder run, no deadlock/panic/unlocked critical section, later sequential Decode returns the same pointer, every successful call returns a value made by a decode function of its own type for its own object; every schedule replayed in the extracted Coq model. Pool oracle and error-value oracle (deterministic): see coverage.pool, coverage.errors",
 		map[string]any{
 			"schedules_explored":              x.nsched,
@@ -868,5 +869,6 @@ func main() {
 			"oracle_failures_by_signature":     x.failed,
 			"pool":                             pool,
 			"errors":                           errs,
+			"concurrent_reads":                 crypt,
 		})
 }
